@@ -4,6 +4,7 @@ package main
 // Gobra-flavoured contracts keyed by package-relative SSA function name.
 
 import (
+	"regexp"
 	"fmt"
 	"os"
 	"strconv"
@@ -125,12 +126,28 @@ var clauseKeywords = map[string]bool{
 	"modifies": true, "loop": true, "params": true,
 }
 
+// specTypeRenames: struct types renamed since the shape snapshot (old name -> new name).
+var specTypeRenames = map[string]string{}
+
 func parseSpecFile(path, pkgPath string, sf *SpecFile) error {
 	data, err := os.ReadFile(path)
 	if err != nil {
 		return err
 	}
-	lines := strings.Split(string(data), "\n")
+	text := string(data)
+	for old, nw := range specTypeRenames {
+		// a struct type renamed in place (shape.go): the contracts follow, textually, on //@ lines
+		re := regexp.MustCompile(`\b` + regexp.QuoteMeta(old) + `\b`)
+		var out []string
+		for _, ln := range strings.Split(text, "\n") {
+			if strings.HasPrefix(strings.TrimSpace(ln), "//@") {
+				ln = re.ReplaceAllString(ln, nw)
+			}
+			out = append(out, ln)
+		}
+		text = strings.Join(out, "\n")
+	}
+	lines := strings.Split(text, "\n")
 	var cur *Contract
 	var curLemma *Lemma
 	var pending *struct {
